@@ -186,7 +186,7 @@ def scenarios(ctx):
                 for action in ("none", "close", "eof", "readerr", "writefail", "drainfail", "garbage-eof", "connect"):
                     points = [("ticks", t) for t in range(0, 14)] + [("at", a) for a in (0.0005, 0.003, 0.015, 0.4, 0.9, 2.0, 5.0)]
                     for kindp, v in points:
-                        for cbm, stm in (("ok", "ok"), ("raise", "ok"), ("slow", "slow"), ("ok", "raise"), (["ok", "close"], "ok"), ("close", "raise"), ("ok", "close-on-disconnect")):
+                        for cbm, stm in (("ok", "ok"), ("raise", "ok"), ("slow", "slow"), ("ok", "raise"), (["ok", "close"], "ok"), ("close", "raise"), ("ok", "close-on-disconnect"), ("ok", "slow-connected")):
                             out.append(dict(kind=kind, shape=shape, connect=cs, action=action, point=[kindp, v], cb=cbm, status=stm,
                                             drain=rnd.choice([None, [1], [0, 2], [3]])))
     rnd.shuffle(out)
@@ -257,7 +257,7 @@ def c12_stream(kind, rnd, n):
             elif kind == "waveshare":
                 q = bytearray(p); q[rnd.randrange(2, 20)] ^= 0x40; p = bytes(q)        # bad checksum
             else:
-                p = b"garbage line %d\r\n" % i
+                p = rnd.choice([b"garbage line %d\r\n" % i, b"garbage \xff\xfe line %d\r\n" % i, b"caf\xe9 %d \xc3\r\n" % i, b"\xf0\x9f\r\n"])    # incl. invalid UTF-8
         elif k < 0.32 and k >= 0.25:   # well-framed, but the per-PGN decoder raises (out-of-range payload)
             bad = bytes([0xFE] * 8)
             if kind == "ebyte":
@@ -277,6 +277,9 @@ def c12_stream(kind, rnd, n):
                 p = b"12:00:00.000 R 19EE4401 01 02 03 04 05 06 07 08\r\n"
             elif kind == "actisense":
                 p = b"A000001.000 01FF6 1EE44 0102030405060708\r\n"
+        if kind == "waveshare" and rnd.random() < 0.25:
+            # line noise in front of the packet: marker-free (no 0xaa at all), so that no packet may be lost (C20)
+            out.append(bytes(rnd.choice([0x00, 0x55, 0x11, 0xfe, 0xab]) for _ in range(rnd.choice([1, 2, 5, 19, 20, 21, 40]))))
         out.append(p)
     return out
 
